@@ -10,6 +10,8 @@ RULE = ("Gen_Types.tla: the value algebra of the geo-types primitives, as promis
         "geo::Vector2DOps of Coord (float scalars): wedge_product (both orders), dot_product, magnitude_squared, left / right as documented, "
         "is_finite, magnitude (exact for perfect squares, else strictly inside the integer bracket of the root), try_normalize (None exactly for the "
         "zero vector, the signed unit axis vector for axis-parallel input, else a unit vector parallel to a with its signs); "
+        "geo::Convert / TryConvert: Line / LineString i32 -> i64, i32 -> f64, f32 -> f64 keep every value, i64 -> i32 is Ok for small values and, after "
+        "scaling by 1 400 000 000, Ok exactly when TLC says every coordinate fits i32, else Err; "
         "Line new (argument order, three argument types), From<[(T,T);2]>, dx dy delta slope determinant start_point end_point points; Rect::new / "
         "try_new with the corners in any order = min / max, width, height, center, to_polygon and to_lines in the documented corner sequence, "
         "split_x / split_y halves with the documented corner placement (integer scalars of odd extent: the cut is one of the two neighbouring "
@@ -61,7 +63,9 @@ FLOAT_ONLY = ["line_slope_reversal_degenerate", "line_slope_reversal_vertical", 
               "coord_vec_wedge", "coord_vec_wedge_swapped", "coord_vec_dot", "coord_vec_magnitude_squared", "coord_vec_left", "coord_vec_right",
               "coord_vec_is_finite", "coord_vec_magnitude", "coord_vec_try_normalize_zero", "coord_vec_try_normalize_axis", "coord_vec_try_normalize"]
 INT_ONLY = ["rect_split_x_odd_extent", "rect_split_y_odd_extent"]
-SUBS = [s + x for s in ALL4 for x in ("", "_f32", "_i64", "_i32")] + [s + x for s in FLOAT_ONLY for x in ("", "_f32")] + \
+ONCE = ["line_convert_i32_to_i64", "line_convert_i32_to_f64", "line_convert_f32_to_f64", "linestring_convert_i32_to_f64", "line_try_convert_small",
+        "linestring_try_convert_fits", "linestring_try_convert_overflow"]
+SUBS = ONCE + [s + x for s in ALL4 for x in ("", "_f32", "_i64", "_i32")] + [s + x for s in FLOAT_ONLY for x in ("", "_f32")] + \
        [s + x for s in INT_ONLY for x in ("_i64", "_i32")]
 # one counter per group of sub-assertions (prefix of the sub-name), and one per input class that a group must have met
 COUNTERS = ["types_%s_checks" % g for g in ("coord", "point", "line", "rect", "triangle", "linestring", "polygon", "multipoint", "multilinestring",
